@@ -33,7 +33,8 @@ def lp_snapshot(model):
     def fin(b):
         # optlang's GLPK text-format copy (pickle / deepcopy of the solver) turns "no bound" into +-DBL_MAX:
         # translation layer of the trusted base, read as infinite
-        return None if (b is not None and abs(b) >= 1e300) else b
+        import math
+        return None if (b is not None and not math.isinf(b) and abs(b) >= 1e300) else b     # a float infinity is kept (and flagged)
     for v in s.variables:
         out["variables"][v.name] = dict(lb=fin(v.lb), ub=fin(v.ub), type=v.type)
     for c in s.constraints:
